@@ -6,6 +6,10 @@
 seed="$1"; prop="$2"; shift 2
 W=/var/tmp/turdb-verif/seedrun-$seed-$$
 mkdir -p "$W" && rsync -a --exclude /target --exclude /.git /repo/ "$W/repo/" || exit 3
+# a seed written against the pinned commit whose file was later changed by a fix: VERIF_SEED_BASE="<commit>:<path>"
+# restores that file from the commit in the scratch copy before patching (the check then also reports the
+# defect the fix repaired; detection of the seed is read off the obligations the fix did not concern)
+if [ -n "$VERIF_SEED_BASE" ]; then c=${VERIF_SEED_BASE%%:*}; f=${VERIF_SEED_BASE#*:}; git -C /repo show "$c:$f" > "$W/repo/$f" || exit 3; fi
 ( cd "$W/repo" && patch -p1 -s --no-backup-if-mismatch < /verif/seeded/$seed/patch.diff ) || { echo "SEED DOES NOT APPLY on current tree"; rm -rf "$W"; exit 3; }
 cd /verif && VERIF_REPO="$W/repo" VERIF_EVIDENCE_DIR="$W/evidence" VERIF_REPLAY_DIR="$W/replays" ./check "$prop" "$@"; rc=$?
 mkdir -p /verif/seeded/$seed/detection && cp "$W/evidence/$prop.json" /verif/seeded/$seed/detection/evidence.json 2>/dev/null
